@@ -8,6 +8,7 @@ import RelicVerif.Lemmas.BnLowMul
 import RelicVerif.Lemmas.BnLowShift
 
 namespace Relic.Model
+open LowMul
 
 /-- a well-formed field context: n digits, digits < B, modulus odd and > 1, n < B (column sums fit) -/
 structure FpCtx.WF (c : FpCtx) : Prop where
@@ -22,59 +23,817 @@ structure FpCtx.WF (c : FpCtx) : Prop where
 /-- an element in canonical form: n digits < B with value < p -/
 def FpCtx.El (c : FpCtx) (a : List Nat) : Prop := a.length = c.n ∧ (∀ d ∈ a, d < c.B) ∧ val c.B a < c.pv
 
+namespace FpAux
+
+theorem mod_sub_once (x p : Nat) (h1 : p ≤ x) (h2 : x < 2 * p) : x % p = x - p := by
+  rw [Nat.mod_eq_sub_mod h1, Nat.mod_eq_of_lt (by omega)]
+
+theorem val_inj (B : Nat) (hB : 0 < B) : ∀ (a b : List Nat), a.length = b.length →
+    (∀ d ∈ a, d < B) → (∀ d ∈ b, d < B) → val B a = val B b → a = b
+  | [], [], _, _, _, _ => rfl
+  | [], _ :: _, h, _, _, _ => by simp at h
+  | _ :: _, [], h, _, _, _ => by simp at h
+  | x :: xs, y :: ys, hl, ha, hb, hv => by
+    have hx : x < B := ha x (by simp)
+    have hy : y < B := hb y (by simp)
+    simp only [val] at hv
+    have e1 : x = y := by
+      have := congrArg (· % B) hv
+      simp only [Nat.add_mul_mod_self_left, Nat.mod_eq_of_lt hx, Nat.mod_eq_of_lt hy] at this
+      exact this
+    subst e1
+    have e2 : val B xs = val B ys := by
+      have : B * val B xs = B * val B ys := by omega
+      exact Nat.eq_of_mul_eq_mul_left hB this
+    rw [val_inj B hB xs ys (by simpa using hl) (fun d hd => ha d (by simp [hd]))
+      (fun d hd => hb d (by simp [hd])) e2]
+
+theorem one_lt_B (c : FpCtx) (hc : c.WF) : 1 < c.B := by
+  unfold FpCtx.B
+  exact Nat.one_lt_two_pow (by have := hc.hw; omega)
+
+theorem pv_lt_R (c : FpCtx) (hc : c.WF) : c.pv < c.R := by
+  have := val_lt c.B c.p hc.hdig
+  rwa [hc.hlen] at this
+
+/-- the conditional final subtraction shared by addm, dblm and rdcn -/
+theorem condSub_spec (c : FpCtx) (hc : c.WF) (s : List Nat) (carry : Nat) (hl : s.length = c.n)
+    (hd : ∀ d ∈ s, d < c.B) (hcarry : carry ≤ 1) (hX : val c.B s + carry * c.R < 2 * c.pv) :
+    c.El (if carry ≠ 0 ∨ dvCmp s c.p ≠ -1 then (subnLow c.B s c.p 0).1 else s)
+    ∧ val c.B (if carry ≠ 0 ∨ dvCmp s c.p ≠ -1 then (subnLow c.B s c.p 0).1 else s)
+        = (val c.B s + carry * c.R) % c.pv := by
+  have hB := one_lt_B c hc
+  have hpR := pv_lt_R c hc
+  obtain ⟨s1, s2, s3, s4⟩ := subnLow_spec c.B hB s c.p 0 (by rw [hl, hc.hlen]) (by omega) hd hc.hdig
+  have hout := val_lt c.B _ s3
+  have hs := val_lt c.B s hd
+  rw [s4] at hout
+  rw [hl] at s1 hout hs
+  obtain ⟨_, hcmp, _⟩ := dvCmp_spec c.B hB s c.p (by rw [hl, hc.hlen]) hd hc.hdig
+  have hR : c.R = c.B ^ c.n := rfl
+  have hpv : c.pv = val c.B c.p := rfl
+  rw [← hpv] at s1 hcmp
+  rw [← hR] at s1 hout hs
+  generalize (subnLow c.B s c.p 0).2 = bo at s1 s2
+  by_cases hcond : carry ≠ 0 ∨ dvCmp s c.p ≠ -1
+  · rw [if_pos hcond]
+    have hge : c.pv ≤ val c.B s + carry * c.R := by
+      rcases hcond with h | h
+      · have : carry = 1 := by omega
+        subst this; omega
+      · have : ¬ val c.B s < c.pv := fun h' => h (hcmp.2 h')
+        omega
+    rw [mod_sub_once _ _ hge hX]
+    have hbo : bo = carry := by
+      have : bo = 0 ∨ bo = 1 := by omega
+      have : carry = 0 ∨ carry = 1 := by omega
+      rcases ‹bo = 0 ∨ bo = 1› with rfl | rfl <;> rcases ‹carry = 0 ∨ carry = 1› with rfl | rfl <;> omega
+    subst hbo
+    refine ⟨⟨by rw [s4, hl], s3, by omega⟩, by omega⟩
+  · rw [if_neg hcond]
+    have h0 : carry = 0 := by
+      apply Classical.byContradiction; intro h; exact hcond (Or.inl h)
+    have hlt : val c.B s < c.pv := by
+      apply hcmp.1
+      apply Classical.byContradiction; intro h; exact hcond (Or.inr h)
+    subst h0
+    simp only [Nat.zero_mul, Nat.add_zero]
+    rw [Nat.mod_eq_of_lt hlt]
+    exact ⟨⟨hl, hd, hlt⟩, rfl⟩
+
+end FpAux
+open FpAux
+
 theorem fpAddm_spec (c : FpCtx) (hc : c.WF) (a b : List Nat) (ha : c.El a) (hb : c.El b) :
     c.El (fpAddm c a b) ∧ val c.B (fpAddm c a b) = (val c.B a + val c.B b) % c.pv := by
-  sorry
-
-theorem fpSubm_spec (c : FpCtx) (hc : c.WF) (a b : List Nat) (ha : c.El a) (hb : c.El b) :
-    c.El (fpSubm c a b) ∧ val c.B (fpSubm c a b) = (val c.B a + c.pv - val c.B b) % c.pv := by
-  sorry
-
-theorem fpNegm_spec (c : FpCtx) (hc : c.WF) (a : List Nat) (ha : c.El a) :
-    c.El (fpNegm c a) ∧ val c.B (fpNegm c a) = (c.pv - val c.B a) % c.pv := by
-  sorry
+  have hB := one_lt_B c hc
+  obtain ⟨al, ad, av⟩ := ha
+  obtain ⟨bl, bd, bv⟩ := hb
+  obtain ⟨h1, h2, h3, h4⟩ := addnLow_spec c.B hB a b 0 (by rw [al, bl]) (by omega) ad bd
+  rw [al] at h1 h4
+  have := condSub_spec c hc (addnLow c.B a b 0).1 (addnLow c.B a b 0).2 h4 h3 h2
+    (by rw [show c.R = c.B ^ c.n from rfl, h1]; omega)
+  rw [show c.R = c.B ^ c.n from rfl, h1, Nat.add_zero] at this
+  exact this
 
 theorem fpDblm_spec (c : FpCtx) (hc : c.WF) (a : List Nat) (ha : c.El a) :
     c.El (fpDblm c a) ∧ val c.B (fpDblm c a) = (2 * val c.B a) % c.pv := by
-  sorry
+  have := fpAddm_spec c hc a a ha ha
+  rw [← Nat.two_mul] at this
+  exact this
 
-/-- halving: the canonical x with 2x ≡ a (mod p) -/
-theorem fpHlvm_spec (c : FpCtx) (hc : c.WF) (a : List Nat) (ha : c.El a) :
-    c.El (fpHlvm c a) ∧ (2 * val c.B (fpHlvm c a)) % c.pv = val c.B a := by
-  sorry
+/-- class-B characterisations: a canonical inverse / square root is unique (up to sign) -/
+theorem inv_unique (p a x y : Nat) (hx : x < p) (hy : y < p) (h1 : a * x % p = 1) (h2 : a * y % p = 1) : x = y := by
+  have e1 : (x * (a * y)) % p = x := by
+    rw [Nat.mul_mod, h2, Nat.mul_one, Nat.mod_mod, Nat.mod_eq_of_lt hx]
+  have e2 : ((a * x) * y) % p = y := by
+    rw [Nat.mul_mod, h1, Nat.one_mul, Nat.mod_mod, Nat.mod_eq_of_lt hy]
+  have e3 : x * (a * y) = (a * x) * y := by
+    rw [Nat.mul_left_comm, Nat.mul_assoc]
+  rw [← e1, e3, e2]
+
+/-- equality of canonical elements coincides with equality of residues (raw digit comparison is sound) -/
+theorem El_eq_iff (c : FpCtx) (hc : c.WF) (a b : List Nat) (ha : c.El a) (hb : c.El b) :
+    a = b ↔ val c.B a % c.pv = val c.B b % c.pv := by
+  constructor
+  · intro h; rw [h]
+  · intro h
+    rw [Nat.mod_eq_of_lt ha.2.2, Nat.mod_eq_of_lt hb.2.2] at h
+    exact val_inj c.B (by have := one_lt_B c hc; omega) a b (by rw [ha.1, hb.1]) ha.2.1 hb.2.1 h
+
+theorem fpSubm_spec (c : FpCtx) (hc : c.WF) (a b : List Nat) (ha : c.El a) (hb : c.El b) :
+    c.El (fpSubm c a b) ∧ val c.B (fpSubm c a b) = (val c.B a + c.pv - val c.B b) % c.pv := by
+  have hB := one_lt_B c hc
+  have hpR := pv_lt_R c hc
+  obtain ⟨al, ad, av⟩ := ha
+  obtain ⟨bl, bd, bv⟩ := hb
+  obtain ⟨h1, h2, h3, h4⟩ := subnLow_spec c.B hB a b 0 (by rw [al, bl]) (by omega) ad bd
+  have hd := val_lt c.B _ h3
+  rw [h4] at hd
+  rw [al] at h1 h4 hd
+  obtain ⟨g1, g2, g3, g4⟩ := addnLow_spec c.B hB (subnLow c.B a b 0).1 c.p 0 (by rw [h4, hc.hlen])
+    (by omega) h3 hc.hdig
+  have ho := val_lt c.B _ g3
+  rw [g4] at ho
+  rw [h4] at g1 g4 ho
+  have hR : c.R = c.B ^ c.n := rfl
+  have hpv : c.pv = val c.B c.p := rfl
+  rw [← hpv] at g1
+  rw [← hR] at h1 g1 hd ho
+  have e : fpSubm c a b = if (subnLow c.B a b 0).2 ≠ 0
+      then (addnLow c.B (subnLow c.B a b 0).1 c.p 0).1 else (subnLow c.B a b 0).1 := rfl
+  rw [e]
+  generalize (addnLow c.B (subnLow c.B a b 0).1 c.p 0).2 = co at g1 g2
+  generalize (addnLow c.B (subnLow c.B a b 0).1 c.p 0).1 = out at g1 g3 g4 ho
+  generalize (subnLow c.B a b 0).2 = bo at h1 h2 g1
+  generalize (subnLow c.B a b 0).1 = d at h1 h3 h4 g1 hd
+  by_cases hbo : bo ≠ 0
+  · rw [if_pos hbo]
+    have : bo = 1 := by omega
+    subst this
+    have : co = 1 := by
+      have : co = 0 ∨ co = 1 := by omega
+      rcases this with rfl | rfl
+      · omega
+      · rfl
+    subst this
+    rw [Nat.mod_eq_of_lt (by omega)]
+    exact ⟨⟨g4, g3, by omega⟩, by omega⟩
+  · rw [if_neg hbo]
+    have : bo = 0 := by omega
+    subst this
+    rw [mod_sub_once _ _ (by omega) (by omega)]
+    exact ⟨⟨h4, h3, by omega⟩, by omega⟩
+
+namespace FpAux
+
+theorem all_zero_iff (B : Nat) (hB : 0 < B) : ∀ (a : List Nat), a.all (· == 0) = true ↔ val B a = 0
+  | [] => by simp [val]
+  | x :: xs => by
+    have ih := all_zero_iff B hB xs
+    simp only [List.all_cons, Bool.and_eq_true, beq_iff_eq, val, ih]
+    constructor
+    · rintro ⟨rfl, h⟩; rw [h]; simp
+    · intro h
+      have h1 : x = 0 := by omega
+      have h2 : B * val B xs = 0 := by omega
+      exact ⟨h1, (Nat.mul_eq_zero.1 h2).resolve_left (by omega)⟩
+
+theorem val_replicate_zero (B n : Nat) : val B (List.replicate n 0) = 0 := by
+  induction n with
+  | zero => rfl
+  | succ n ih => simp [List.replicate_succ, val, ih]
+
+end FpAux
+
+theorem fpNegm_spec (c : FpCtx) (hc : c.WF) (a : List Nat) (ha : c.El a) :
+    c.El (fpNegm c a) ∧ val c.B (fpNegm c a) = (c.pv - val c.B a) % c.pv := by
+  have hB := one_lt_B c hc
+  have hpR := pv_lt_R c hc
+  have hgt := hc.hgt
+  obtain ⟨al, ad, av⟩ := ha
+  unfold fpNegm
+  by_cases hz : a.all (· == 0) = true
+  · rw [if_pos hz]
+    have h0 := (all_zero_iff c.B (by omega) a).1 hz
+    rw [h0, Nat.sub_zero, Nat.mod_self, val_replicate_zero]
+    refine ⟨⟨by simp, ?_, by rw [val_replicate_zero]; omega⟩, rfl⟩
+    intro d hd
+    rw [List.mem_replicate] at hd
+    omega
+  · rw [if_neg hz]
+    have h0 : val c.B a ≠ 0 := fun h => hz ((all_zero_iff c.B (by omega) a).2 h)
+    obtain ⟨h1, h2, h3, h4⟩ := subnLow_spec c.B hB c.p a 0 (by rw [al, hc.hlen]) (by omega) hc.hdig ad
+    have hd := val_lt c.B _ h3
+    rw [h4] at hd
+    rw [hc.hlen] at h1 h4 hd
+    have hR : c.R = c.B ^ c.n := rfl
+    have hpv : c.pv = val c.B c.p := rfl
+    rw [← hpv] at h1
+    rw [← hR] at h1 hd
+    generalize (subnLow c.B c.p a 0).2 = bo at h1 h2
+    have : bo = 0 := by
+      have : bo = 0 ∨ bo = 1 := by omega
+      rcases this with rfl | rfl
+      · rfl
+      · omega
+    subst this
+    rw [Nat.mod_eq_of_lt (by omega)]
+    exact ⟨⟨h4, h3, by omega⟩, by omega⟩
 
 theorem combaAdd_spec (B : Nat) (hB : 1 < B) (r : Nat × Nat × Nat) (a : Nat)
     (hr2 : r.1 < B) (hr1 : r.2.1 < B) (hr0 : r.2.2 < B) (ha : a < B)
     (hfit : regVal B r + a < B * B * B) :
     regVal B (combaAdd B r a) = regVal B r + a
     ∧ (combaAdd B r a).1 < B ∧ (combaAdd B r a).2.1 < B ∧ (combaAdd B r a).2.2 < B := by
-  sorry
+  obtain ⟨r2, r1, r0⟩ := r
+  simp only [regVal] at *
+  obtain ⟨s0, k0, es0, ek0, hs0, hk0, hsum0⟩ := add_carry_r B r0 a hr0 ha
+  obtain ⟨s1, k1, es1, ek1, hs1, hk1, hsum1⟩ := add_carry_l B r1 k0 hr1 (by omega)
+  have htot : s0 + B * s1 + B * B * (r2 + k1) = r0 + B * r1 + B * B * r2 + a := by grind
+  have hT : r2 + k1 < B := by
+    have : B * B * (r2 + k1) < B * B * B := by omega
+    exact Nat.lt_of_mul_lt_mul_left this
+  simp only [combaAdd, es0, ek0, es1, ek1]
+  rw [Nat.mod_eq_of_lt hT]
+  exact ⟨htot, hT, hs1, hs0⟩
 
+namespace FpAux
+
+theorem xor_two_pow (x k : Nat) (hx : x < 2 ^ k) : x ^^^ 2 ^ k = x + 2 ^ k := by
+  have h1 : (x ^^^ 2 ^ k) % 2 ^ k = x := by
+    rw [Nat.xor_mod_two_pow, Nat.mod_self, Nat.xor_zero, Nat.mod_eq_of_lt hx]
+  have h2 : (x ^^^ 2 ^ k) / 2 ^ k = 1 := by
+    rw [Nat.xor_div_two_pow, Nat.div_eq_of_lt hx, Nat.div_self (Nat.two_pow_pos k), Nat.zero_xor]
+  have := Nat.div_add_mod (x ^^^ 2 ^ k) (2 ^ k)
+  rw [h1, h2] at this
+  omega
+
+theorem val_mod_two (w : Nat) (hw : 0 < w) (a : List Nat) : val (2 ^ w) a % 2 = a.getD 0 0 % 2 := by
+  cases a with
+  | nil => simp [val]
+  | cons x xs =>
+    obtain ⟨k, rfl⟩ : ∃ k, w = k + 1 := ⟨w - 1, by omega⟩
+    simp only [val, List.getD_cons_zero, Nat.pow_succ]
+    rw [Nat.mul_comm (2 ^ k) 2, Nat.mul_assoc, Nat.add_mul_mod_self_left]
+
+theorem val_set (B : Nat) : ∀ (l : List Nat) (i v : Nat), i < l.length →
+    val B (l.set i v) + B ^ i * l.getD i 0 = val B l + B ^ i * v
+  | [], _, _, h => by simp at h
+  | x :: xs, 0, v, _ => by simp [val]; omega
+  | x :: xs, i + 1, v, h => by
+    have ih := val_set B xs i v (by simpa using h)
+    simp only [List.set_cons_succ, val, List.getD_cons_succ, Nat.pow_succ]
+    have e1 : B ^ i * B * xs.getD i 0 = B * (B ^ i * xs.getD i 0) := by grind
+    have e2 : B ^ i * B * v = B * (B ^ i * v) := by grind
+    rw [e1, e2]
+    have : B * (val B (xs.set i v) + B ^ i * xs.getD i 0) = B * (val B xs + B ^ i * v) := by rw [ih]
+    rw [Nat.mul_add, Nat.mul_add] at this
+    omega
+
+theorem getD_mul_le (B : Nat) : ∀ (l : List Nat) (i : Nat), B ^ i * l.getD i 0 ≤ val B l
+  | [], i => by simp
+  | x :: xs, 0 => by simp [val]
+  | x :: xs, i + 1 => by
+    have ih := getD_mul_le B xs i
+    simp only [List.getD_cons_succ, val, Nat.pow_succ]
+    have e1 : B ^ i * B * xs.getD i 0 = B * (B ^ i * xs.getD i 0) := by grind
+    rw [e1]
+    have := Nat.mul_le_mul_left B ih
+    omega
+
+end FpAux
+
+/-- halving: the canonical x with 2x ≡ a (mod p) -/
+theorem fpHlvm_spec (c : FpCtx) (hc : c.WF) (a : List Nat) (ha : c.El a) :
+    c.El (fpHlvm c a) ∧ (2 * val c.B (fpHlvm c a)) % c.pv = val c.B a := by
+  have hB := one_lt_B c hc
+  have hpR := pv_lt_R c hc
+  have hw := hc.hw
+  have hn := hc.hn
+  have hodd := hc.hodd
+  obtain ⟨al, ad, av⟩ := ha
+  have hBw : c.B = 2 ^ c.w := rfl
+  have hpar : val c.B a % 2 = a.getD 0 0 % 2 := by rw [hBw]; exact val_mod_two c.w hw a
+  have e : fpHlvm c a =
+      if (if a.getD 0 0 % 2 = 1 then addnLow c.B a c.p 0 else (a, 0)).2 ≠ 0 then
+        (rsh1Low c.w (if a.getD 0 0 % 2 = 1 then addnLow c.B a c.p 0 else (a, 0)).1).1.set (c.n - 1)
+          ((rsh1Low c.w (if a.getD 0 0 % 2 = 1 then addnLow c.B a c.p 0 else (a, 0)).1).1.getD
+            (c.n - 1) 0 ^^^ 2 ^ (c.w - 1))
+      else (rsh1Low c.w (if a.getD 0 0 % 2 = 1 then addnLow c.B a c.p 0 else (a, 0)).1).1 := rfl
+  rw [e]
+  by_cases hp : a.getD 0 0 % 2 = 1
+  · simp only [if_pos hp]
+    obtain ⟨h1, h2, h3, h4⟩ := addnLow_spec c.B hB a c.p 0 (by rw [al, hc.hlen]) (by omega) ad hc.hdig
+    rw [al] at h1 h4
+    have ht := val_lt c.B _ h3
+    rw [h4] at ht
+    rw [hBw] at h3
+    obtain ⟨g1, _, g3, g4⟩ := rsh1Low_spec c.w hw (addnLow c.B a c.p 0).1 h3
+    rw [← hBw] at g1 g3 h3
+    rw [h4] at g4
+    rw [show val c.B c.p = c.pv from rfl, Nat.add_zero] at h1
+    generalize (addnLow c.B a c.p 0).2 = carry at h1 h2
+    generalize (addnLow c.B a c.p 0).1 = t at h1 h3 h4 ht g1 g3 g4 ⊢
+    generalize (rsh1Low c.w t).1 = r at g1 g3 g4 ⊢
+    -- B^n = 2 * (B^(n-1) * 2^(w-1))
+    obtain ⟨k, hk⟩ : ∃ k, c.n = k + 1 := ⟨c.n - 1, by omega⟩
+    obtain ⟨v, hv⟩ : ∃ v, c.w = v + 1 := ⟨c.w - 1, by omega⟩
+    have hBn : c.B ^ c.n = 2 * (c.B ^ k * 2 ^ v) := by
+      have hB2 : c.B = 2 * 2 ^ v := by rw [hBw, hv, Nat.pow_succ]; omega
+      rw [hk, Nat.pow_succ]
+      generalize c.B ^ k = X
+      rw [hB2, Nat.mul_left_comm]
+    have hk' : c.n - 1 = k := by omega
+    have hv' : c.w - 1 = v := by omega
+    rw [hk', hv']
+    by_cases hcar : carry ≠ 0
+    · rw [if_pos hcar]
+      have : carry = 1 := by omega
+      subst this
+      have hx : r.getD k 0 < 2 ^ v := by
+        have h5 := getD_mul_le c.B r k
+        have : c.B ^ k * r.getD k 0 < c.B ^ k * 2 ^ v := by omega
+        exact Nat.lt_of_mul_lt_mul_left this
+      rw [xor_two_pow _ _ hx]
+      have hs := val_set c.B r k (r.getD k 0 + 2 ^ v) (by omega)
+      rw [Nat.mul_add] at hs
+      have hval : 2 * val c.B (r.set k (r.getD k 0 + 2 ^ v)) = val c.B a + c.pv := by omega
+      rw [hval, Nat.add_mod_right, Nat.mod_eq_of_lt av]
+      refine ⟨⟨by rw [List.length_set, g4], ?_, by omega⟩, rfl⟩
+      intro d hd
+      rcases List.mem_or_eq_of_mem_set hd with hd | rfl
+      · exact g3 d hd
+      · rw [hBw, hv, Nat.pow_succ]; omega
+    · rw [if_neg hcar]
+      have : carry = 0 := by omega
+      subst this
+      have hval : 2 * val c.B r = val c.B a + c.pv := by omega
+      rw [hval, Nat.add_mod_right, Nat.mod_eq_of_lt av]
+      exact ⟨⟨g4, g3, by omega⟩, rfl⟩
+  · simp only [if_neg hp, ne_eq, not_true_eq_false, if_false]
+    rw [hBw] at ad
+    obtain ⟨g1, _, g3, g4⟩ := rsh1Low_spec c.w hw a ad
+    rw [← hBw] at g1 g3
+    have hval : 2 * val c.B (rsh1Low c.w a).1 = val c.B a := by omega
+    rw [hval, Nat.mod_eq_of_lt av]
+    exact ⟨⟨by rw [g4, al], g3, by omega⟩, rfl⟩
+
+namespace FpAux
+
+/-- body of the first loop of fp_rdcn_low (columns 0..n-1, quotient digits) -/
+def rdcStep1 (B u : Nat) (a m : List Nat) (st : List Nat × (Nat × Nat × Nat)) (i : Nat) :
+    List Nat × (Nat × Nat × Nat) :=
+  let r0 := (List.range i).foldl
+    (fun r j => combaStepMul B r (st.1.getD j 0) (m.getD (i - j) 0)) st.2
+  let r1 := combaAdd B r0 (a.getD i 0)
+  let qi := (r1.2.2 * u) % B
+  let r2 := combaStepMul B r1 qi (m.getD 0 0)
+  (st.1 ++ [qi], (0, r2.1, r2.2.1))
+
+/-- body of the second loop of fp_rdcn_low (columns n..2n-2, result digits) -/
+def rdcStep2 (B n : Nat) (a m q : List Nat) (st : List Nat × (Nat × Nat × Nat)) (k : Nat) :
+    List Nat × (Nat × Nat × Nat) :=
+  let r0 := (List.range (n - (k + n - n + 1))).foldl
+    (fun r jj => combaStepMul B r (q.getD (jj + (k + n - n + 1)) 0)
+      (m.getD (k + n - (jj + (k + n - n + 1))) 0)) st.2
+  let r1 := combaAdd B r0 (a.getD (k + n) 0)
+  (st.1 ++ [r1.2.2], (0, r1.1, r1.2.1))
+
+def rdcLoop1 (B u : Nat) (a m : List Nat) (cnt : Nat) : List Nat × (Nat × Nat × Nat) :=
+  (List.range cnt).foldl (rdcStep1 B u a m) ([], (0, 0, 0))
+
+def rdcLoop2 (B n : Nat) (a m q : List Nat) (r : Nat × Nat × Nat) (cnt : Nat) :
+    List Nat × (Nat × Nat × Nat) :=
+  (List.range cnt).foldl (rdcStep2 B n a m q) ([], r)
+
+theorem fpRdcn_eq (c : FpCtx) (a : List Nat) : fpRdcn c a =
+    if (combaAdd c.B (rdcLoop2 c.B c.n a c.p (rdcLoop1 c.B c.u a c.p c.n).1
+          (rdcLoop1 c.B c.u a c.p c.n).2 (c.n - 1)).2 (a.getD (2 * c.n - 1) 0)).2.1 ≠ 0
+      ∨ dvCmp ((rdcLoop2 c.B c.n a c.p (rdcLoop1 c.B c.u a c.p c.n).1
+          (rdcLoop1 c.B c.u a c.p c.n).2 (c.n - 1)).1 ++
+          [(combaAdd c.B (rdcLoop2 c.B c.n a c.p (rdcLoop1 c.B c.u a c.p c.n).1
+          (rdcLoop1 c.B c.u a c.p c.n).2 (c.n - 1)).2 (a.getD (2 * c.n - 1) 0)).2.2]) c.p ≠ -1
+    then (subnLow c.B ((rdcLoop2 c.B c.n a c.p (rdcLoop1 c.B c.u a c.p c.n).1
+          (rdcLoop1 c.B c.u a c.p c.n).2 (c.n - 1)).1 ++
+          [(combaAdd c.B (rdcLoop2 c.B c.n a c.p (rdcLoop1 c.B c.u a c.p c.n).1
+          (rdcLoop1 c.B c.u a c.p c.n).2 (c.n - 1)).2 (a.getD (2 * c.n - 1) 0)).2.2]) c.p 0).1
+    else (rdcLoop2 c.B c.n a c.p (rdcLoop1 c.B c.u a c.p c.n).1
+          (rdcLoop1 c.B c.u a c.p c.n).2 (c.n - 1)).1 ++
+          [(combaAdd c.B (rdcLoop2 c.B c.n a c.p (rdcLoop1 c.B c.u a c.p c.n).1
+          (rdcLoop1 c.B c.u a c.p c.n).2 (c.n - 1)).2 (a.getD (2 * c.n - 1) 0)).2.2] := rfl
+
+
+theorem getD_append_lt (l l' : List Nat) (i : Nat) (h : i < l.length) :
+    (l ++ l').getD i 0 = l.getD i 0 := by
+  simp [List.getD_eq_getElem?_getD, List.getElem?_append_left h]
+
+theorem getD_append_len (l : List Nat) (x : Nat) : (l ++ [x]).getD l.length 0 = x := by
+  simp [List.getD_eq_getElem?_getD]
+
+theorem colSum_append_lt (q m : List Nat) (x k : Nat) (hk : k < q.length) :
+    colSum (q ++ [x]) m k = colSum q m k := by
+  unfold colSum
+  apply sumTo_congr
+  intro i hi
+  show (q ++ [x]).getD i 0 * _ = q.getD i 0 * _
+  rw [getD_append_lt q [x] i (by omega)]
+
+theorem colSum_append_eq (q m : List Nat) (x : Nat) :
+    colSum (q ++ [x]) m q.length
+      = sumTo (fun j => q.getD j 0 * m.getD (q.length - j) 0) q.length + x * m.getD 0 0 := by
+  unfold colSum
+  show sumTo _ q.length + (q ++ [x]).getD q.length 0 * m.getD (q.length - q.length) 0 = _
+  rw [getD_append_len, Nat.sub_self]
+  congr 1
+  apply sumTo_congr
+  intro i hi
+  show (q ++ [x]).getD i 0 * _ = q.getD i 0 * _
+  rw [getD_append_lt q [x] i hi]
+
+/-- tight accumulator bound: every product of two digits is at most (B-1)² = B² + 1 - 2B -/
+theorem mulProc_fold' (B : Nat) (hB : 1 < B) (a b : List Nat)
+    (hda : ∀ d ∈ a, d < B) (hdb : ∀ d ∈ b, d < B) :
+    ∀ (pairs : List (Nat × Nat)) (acc : Nat × Nat × Nat),
+      acc.1 < B → acc.2.1 < B → acc.2.2 < B →
+      regVal B acc + pairs.length * (B * B + 1 - 2 * B) < B * B * B →
+      regVal B (mulProc B a b pairs acc) = regVal B acc + colVal a b pairs
+      ∧ colVal a b pairs ≤ pairs.length * (B * B + 1 - 2 * B)
+      ∧ (mulProc B a b pairs acc).1 < B ∧ (mulProc B a b pairs acc).2.1 < B
+      ∧ (mulProc B a b pairs acc).2.2 < B := by
+  intro pairs
+  induction pairs with
+  | nil => intro acc h1 h2 h3 _; exact ⟨rfl, Nat.zero_le _, h1, h2, h3⟩
+  | cons ij ps ih =>
+    intro acc h1 h2 h3 hfit
+    have hx := getD_lt B (by omega) a hda ij.1
+    have hy := getD_lt B (by omega) b hdb ij.2
+    have hxy : a.getD ij.1 0 * b.getD ij.2 0 ≤ B * B + 1 - 2 * B := by
+      have := mul_le_sq B _ _ hx hy
+      omega
+    generalize B * B + 1 - 2 * B = K at *
+    simp only [List.length_cons, Nat.succ_mul] at hfit ⊢
+    obtain ⟨e, g1, g2, g3⟩ := combaStepMul_spec B hB acc _ _ h1 h2 h3 hx hy (by omega)
+    obtain ⟨e', f', g1', g2', g3'⟩ :=
+      ih (combaStepMul B acc (a.getD ij.1 0) (b.getD ij.2 0)) g1 g2 g3 (by omega)
+    refine ⟨?_, ?_, g1', g2', g3'⟩
+    · show regVal B (mulProc B a b ps _) = _
+      rw [e', e, colVal]; omega
+    · rw [colVal]; omega
+
+theorem fit_bound (B n : Nat) (hB : 1 < B) (hn : n < B) :
+    B * B + B + n * (B * B + 1 - 2 * B) ≤ B * B * B + 1 := by
+  obtain ⟨b, rfl⟩ : ∃ b, B = b + 1 := ⟨B - 1, by omega⟩
+  have hK : (b + 1) * (b + 1) + 1 - 2 * (b + 1) = b * b := by
+    have : (b + 1) * (b + 1) = b * b + 2 * b + 1 := by grind
+    omega
+  rw [hK]
+  have h1 : n * (b * b) ≤ b * (b * b) := Nat.mul_le_mul_right _ (by omega)
+  have h2 : (b + 1) * (b + 1) + (b + 1) + b * (b * b) ≤ (b + 1) * (b + 1) * (b + 1) + 1 := by grind
+  omega
+
+theorem reg_le (B : Nat) (r : Nat × Nat × Nat) (h0 : r.1 = 0) (h1 : r.2.1 < B) (h2 : r.2.2 < B) :
+    regVal B r + 1 ≤ B * B := by
+  have e1 : B * r.2.1 + B ≤ B * B := by
+    have := Nat.mul_le_mul_left B (show r.2.1 + 1 ≤ B from h1)
+    rwa [Nat.mul_succ] at this
+  simp only [regVal, h0, Nat.mul_zero, Nat.add_zero]
+  omega
+
+/-- one Montgomery column: the products of the column, then the digit of T -/
+theorem rdc_col (B : Nat) (hB : 1 < B) (q m : List Nat) (hq : ∀ d ∈ q, d < B) (hm : ∀ d ∈ m, d < B)
+    (pairs : List (Nat × Nat)) (hlen : pairs.length + 1 < B) (d : Nat) (hd : d < B)
+    (r : Nat × Nat × Nat) (h0 : r.1 = 0) (h1 : r.2.1 < B) (h2 : r.2.2 < B) :
+    regVal B (combaAdd B (mulProc B q m pairs r) d) = regVal B r + colVal q m pairs + d
+    ∧ (combaAdd B (mulProc B q m pairs r) d).1 < B
+    ∧ (combaAdd B (mulProc B q m pairs r) d).2.1 < B
+    ∧ (combaAdd B (mulProc B q m pairs r) d).2.2 < B
+    ∧ regVal B (combaAdd B (mulProc B q m pairs r) d) + (B * B + 1 - 2 * B) < B * B * B := by
+  have hr := reg_le B r h0 h1 h2
+  have hf := fit_bound B (pairs.length + 1) hB hlen
+  rw [Nat.succ_mul] at hf
+  obtain ⟨e, f, g1, g2, g3⟩ := mulProc_fold' B hB q m hq hm pairs r (by omega) h1 h2 (by omega)
+  obtain ⟨e', k1, k2, k3⟩ := combaAdd_spec B hB _ d g1 g2 g3 hd (by omega)
+  refine ⟨by rw [e', e], k1, k2, k3, by omega⟩
+
+theorem mont_zero (B u m0 r0 : Nat) (hu : (u * m0 + 1) % B = 0) :
+    (r0 + (r0 * u % B) * m0) % B = 0 := by
+  obtain ⟨t, ht⟩ := Nat.dvd_of_mod_eq_zero hu
+  have hdm := Nat.div_add_mod (r0 * u) B
+  have key : r0 + (r0 * u % B) * m0 + B * ((r0 * u / B) * m0) = B * (r0 * t) := by
+    generalize r0 * u / B = s at *
+    generalize r0 * u % B = qi at *
+    grind
+  rw [← Nat.add_mul_mod_self_left _ B ((r0 * u / B) * m0), key, Nat.mul_mod_right]
+
+theorem regVal_low (B : Nat) (r : Nat × Nat × Nat) (h : r.2.2 < B) : regVal B r % B = r.2.2 := by
+  have : regVal B r = r.2.2 + B * (r.2.1 + B * r.1) := by simp only [regVal]; grind
+  rw [this, Nat.add_mul_mod_self_left, Nat.mod_eq_of_lt h]
+
+/-- first-loop invariant: all emitted low digits vanished, the register holds the exact quotient
+    (Σ_{k<i} column_k · B^k) / B^i -/
+def Inv1 (B : Nat) (a m : List Nat) (i : Nat) (st : List Nat × (Nat × Nat × Nat)) : Prop :=
+  st.1.length = i ∧ (∀ d ∈ st.1, d < B) ∧ st.2.1 = 0 ∧ st.2.2.1 < B ∧ st.2.2.2 < B
+  ∧ B ^ i * regVal B st.2 = val B ((List.range i).map fun k => a.getD k 0 + colSum st.1 m k)
+
+theorem rdcStep1_inv (B u : Nat) (hB : 1 < B) (a m : List Nat) (hda : ∀ d ∈ a, d < B)
+    (hdm : ∀ d ∈ m, d < B) (hu : (u * m.getD 0 0 + 1) % B = 0) (i : Nat) (hi : i + 1 < B)
+    (st : List Nat × (Nat × Nat × Nat)) (h : Inv1 B a m i st) :
+    Inv1 B a m (i + 1) (rdcStep1 B u a m st i) := by
+  obtain ⟨hl, hq, h0, h1, h2, hv⟩ := h
+  have e0 : (List.range i).foldl
+      (fun r j => combaStepMul B r (st.1.getD j 0) (m.getD (i - j) 0)) st.2
+      = mulProc B st.1 m ((List.range i).map fun j => (j, i - j)) st.2 := by
+    unfold mulProc; rw [List.foldl_map]
+  have hai := getD_lt B (by omega) a hda i
+  have hm0 := getD_lt B (by omega) m hdm 0
+  obtain ⟨c1, c2, c3, c4, c5⟩ := rdc_col B hB st.1 m hq hdm ((List.range i).map fun j => (j, i - j))
+    (by simpa using hi) (a.getD i 0) hai st.2 h0 h1 h2
+  rw [colVal_map_range] at c1
+  simp only [rdcStep1, e0]
+  generalize combaAdd B (mulProc B st.1 m ((List.range i).map fun j => (j, i - j)) st.2)
+    (a.getD i 0) = r1 at c1 c2 c3 c4 c5 ⊢
+  have hqi : r1.2.2 * u % B < B := Nat.mod_lt _ (by omega)
+  have hxy := mul_le_sq B _ _ hqi hm0
+  obtain ⟨s1, s2, s3, s4⟩ := combaStepMul_spec B hB r1 _ _ c2 c3 c4 hqi hm0 (by omega)
+  have hz : (combaStepMul B r1 (r1.2.2 * u % B) (m.getD 0 0)).2.2 = 0 := by
+    rw [← regVal_low B _ s4, s1]
+    have : regVal B r1 = r1.2.2 + B * (r1.2.1 + B * r1.1) := by simp only [regVal]; grind
+    rw [this, Nat.add_right_comm, Nat.add_mul_mod_self_left]
+    exact mont_zero B u _ _ hu
+  generalize combaStepMul B r1 (r1.2.2 * u % B) (m.getD 0 0) = r2 at s1 s2 s3 s4 hz
+  generalize r1.2.2 * u % B = qi at *
+  refine ⟨by simp [hl], ?_, rfl, s2, s3, ?_⟩
+  · intro d hd
+    rcases List.mem_append.1 hd with hd | hd
+    · exact hq d hd
+    · simp at hd; omega
+  · have hcong : (List.range i).map (fun k => a.getD k 0 + colSum (st.1 ++ [qi]) m k)
+        = (List.range i).map (fun k => a.getD k 0 + colSum st.1 m k) := by
+      apply List.map_congr_left
+      intro k hk
+      rw [colSum_append_lt _ _ _ _ (by rw [hl]; exact List.mem_range.1 hk)]
+    have hlast : colSum (st.1 ++ [qi]) m i
+        = sumTo (fun j => st.1.getD j 0 * m.getD (i - j) 0) i + qi * m.getD 0 0 := by
+      have := colSum_append_eq st.1 m qi
+      rwa [hl] at this
+    rw [List.range_succ, List.map_append, val_append, hcong, ← hv, List.length_map,
+      List.length_range, List.map_cons, List.map_nil, hlast]
+    simp only [val, regVal, Nat.pow_succ] at *
+    rw [hz] at s1
+    grind
+
+theorem rdcLoop1_succ (B u : Nat) (a m : List Nat) (i : Nat) :
+    rdcLoop1 B u a m (i + 1) = rdcStep1 B u a m (rdcLoop1 B u a m i) i := by
+  simp only [rdcLoop1, List.range_succ, List.foldl_append, List.foldl_cons, List.foldl_nil]
+
+theorem rdcLoop1_inv (B u : Nat) (hB : 1 < B) (a m : List Nat) (hda : ∀ d ∈ a, d < B)
+    (hdm : ∀ d ∈ m, d < B) (hu : (u * m.getD 0 0 + 1) % B = 0) :
+    ∀ i, i < B → Inv1 B a m i (rdcLoop1 B u a m i)
+  | 0, _ => by
+    refine ⟨rfl, by simp [rdcLoop1], rfl, by simp [rdcLoop1]; omega, by simp [rdcLoop1]; omega, ?_⟩
+    simp [rdcLoop1, regVal, val]
+  | i + 1, h => by
+    rw [rdcLoop1_succ]
+    exact rdcStep1_inv B u hB a m hda hdm hu i h _ (rdcLoop1_inv B u hB a m hda hdm hu i (by omega))
+
+/-- second-loop invariant: emitted digits + register · B^k = carry-in + Σ_{j<k} column_{n+j} · B^j -/
+def Inv2 (B n : Nat) (a m q : List Nat) (r0 : Nat × Nat × Nat) (k : Nat)
+    (st : List Nat × (Nat × Nat × Nat)) : Prop :=
+  st.1.length = k ∧ (∀ d ∈ st.1, d < B) ∧ st.2.1 = 0 ∧ st.2.2.1 < B ∧ st.2.2.2 < B
+  ∧ val B st.1 + B ^ k * regVal B st.2
+      = regVal B r0 + val B ((List.range k).map fun j => a.getD (j + n) 0 + colSum q m (j + n))
+
+theorem rdcStep2_inv (B n : Nat) (hB : 1 < B) (hnB : n < B) (a m q : List Nat)
+    (hda : ∀ d ∈ a, d < B) (hdm : ∀ d ∈ m, d < B) (hdq : ∀ d ∈ q, d < B)
+    (hlm : m.length = n) (hlq : q.length = n) (r0 : Nat × Nat × Nat) (k : Nat) (hk : k + 1 ≤ n)
+    (st : List Nat × (Nat × Nat × Nat)) (h : Inv2 B n a m q r0 k st) :
+    Inv2 B n a m q r0 (k + 1) (rdcStep2 B n a m q st k) := by
+  obtain ⟨hl, hq, h0, h1, h2, hv⟩ := h
+  have ek : k + n - n + 1 = k + 1 := by omega
+  have e0 : (List.range (n - (k + n - n + 1))).foldl
+      (fun r jj => combaStepMul B r (q.getD (jj + (k + n - n + 1)) 0)
+        (m.getD (k + n - (jj + (k + n - n + 1))) 0)) st.2
+      = mulProc B q m ((List.range (n - (k + 1))).map fun j => (k + 1 + j, n - 1 - j)) st.2 := by
+    have hmap : (List.range (n - (k + 1))).map (fun j => (k + 1 + j, n - 1 - j))
+        = (List.range (n - (k + 1))).map (fun jj => (jj + (k + 1), k + n - (jj + (k + 1)))) := by
+      apply List.map_congr_left
+      intro jj hjj
+      have := List.mem_range.1 hjj
+      simp only [Prod.mk.injEq]
+      omega
+    unfold mulProc
+    rw [hmap, List.foldl_map, ek]
+  have hak := getD_lt B (by omega) a hda (k + n)
+  obtain ⟨c1, c2, c3, c4, _⟩ := rdc_col B hB q m hdq hdm
+    ((List.range (n - (k + 1))).map fun j => (k + 1 + j, n - 1 - j))
+    (by simp; omega) (a.getD (k + n) 0) hak st.2 h0 h1 h2
+  rw [cols_seg q m (k + 1) (n - 1) (n - (k + 1)) (k + n) (by omega) (Or.inr (by omega))
+    (Or.inl (by omega)) (by omega)] at c1
+  simp only [rdcStep2, e0]
+  generalize combaAdd B (mulProc B q m ((List.range (n - (k + 1))).map
+    fun j => (k + 1 + j, n - 1 - j)) st.2) (a.getD (k + n) 0) = r1 at c1 c2 c3 c4 ⊢
+  refine ⟨by simp [hl], ?_, rfl, c2, c3, ?_⟩
+  · intro d hd
+    rcases List.mem_append.1 hd with hd | hd
+    · exact hq d hd
+    · simp at hd; omega
+  · rw [List.range_succ, List.map_append, val_append, val_append, List.length_map,
+      List.length_range, List.map_cons, List.map_nil, hl]
+    simp only [val, regVal, Nat.pow_succ] at *
+    grind
+
+theorem rdcLoop2_succ (B n : Nat) (a m q : List Nat) (r : Nat × Nat × Nat) (k : Nat) :
+    rdcLoop2 B n a m q r (k + 1) = rdcStep2 B n a m q (rdcLoop2 B n a m q r k) k := by
+  simp only [rdcLoop2, List.range_succ, List.foldl_append, List.foldl_cons, List.foldl_nil]
+
+theorem rdcLoop2_inv (B n : Nat) (hB : 1 < B) (hnB : n < B) (a m q : List Nat)
+    (hda : ∀ d ∈ a, d < B) (hdm : ∀ d ∈ m, d < B) (hdq : ∀ d ∈ q, d < B)
+    (hlm : m.length = n) (hlq : q.length = n) (r0 : Nat × Nat × Nat)
+    (h0 : r0.1 = 0) (h1 : r0.2.1 < B) (h2 : r0.2.2 < B) :
+    ∀ k, k + 1 ≤ n → Inv2 B n a m q r0 k (rdcLoop2 B n a m q r0 k)
+  | 0, _ => by
+    refine ⟨rfl, by simp [rdcLoop2], h0, h1, h2, ?_⟩
+    simp [rdcLoop2, val]
+  | k + 1, h => by
+    rw [rdcLoop2_succ]
+    exact rdcStep2_inv B n hB hnB a m q hda hdm hdq hlm hlq r0 k (by omega) _
+      (rdcLoop2_inv B n hB hnB a m q hda hdm hdq hlm hlq r0 h0 h1 h2 k (by omega))
+
+theorem colSum_high (q m : List Nat) (k : Nat) (h : q.length + m.length ≤ k + 1) :
+    colSum q m k = 0 := by
+  unfold colSum
+  apply sumTo_zero
+  intro i hi
+  show q.getD i 0 * m.getD (k - i) 0 = 0
+  by_cases h1 : q.length ≤ i
+  · rw [getD_ge q i h1, Nat.zero_mul]
+  · rw [getD_ge m (k - i) (by omega), Nat.mul_zero]
+
+theorem cube_bound (B : Nat) (hB : 1 < B) : B * B + B ≤ B * B * B := by
+  have h1 : 2 * (B * B) ≤ B * (B * B) := Nat.mul_le_mul_right _ hB
+  have h2 : B * 1 ≤ B * B := Nat.mul_le_mul_left _ (by omega)
+  have h3 : B * (B * B) = B * B * B := by grind
+  omega
+
+theorem core_arith (P B VO R0 R1 G aL x0 x1 x2 T : Nat)
+    (hv2 : VO + P * R1 = R0 + G)
+    (e : x0 + B * x1 + B * B * x2 = R1 + aL)
+    (htot : P * B * R0 + P * B * (G + P * (aL + 0 + B * 0)) = T) :
+    P * B * (VO + P * (x0 + B * 0) + P * B * (x1 + B * x2)) = T := by
+  subst htot
+  have : P * B * (VO + P * (x0 + B * 0) + P * B * (x1 + B * x2))
+      = P * B * (VO + P * (x0 + B * x1 + B * B * x2)) := by grind
+  rw [this, e]
+  have : P * B * (VO + P * (R1 + aL)) = P * B * ((VO + P * R1) + P * aL) := by grind
+  rw [this, hv2]
+  grind
+
+/-- the exact quotient computed by the two loops and the last column -/
+theorem rdc_core (B u n : Nat) (hB : 1 < B) (hn : 0 < n) (hnB : n < B) (a m : List Nat)
+    (hla : a.length = 2 * n) (hlm : m.length = n) (hda : ∀ d ∈ a, d < B) (hdm : ∀ d ∈ m, d < B)
+    (hu : (u * m.getD 0 0 + 1) % B = 0) (res : List Nat) (r : Nat × Nat × Nat)
+    (hr : r = combaAdd B (rdcLoop2 B n a m (rdcLoop1 B u a m n).1 (rdcLoop1 B u a m n).2 (n - 1)).2
+      (a.getD (2 * n - 1) 0))
+    (hres : res = (rdcLoop2 B n a m (rdcLoop1 B u a m n).1 (rdcLoop1 B u a m n).2 (n - 1)).1
+      ++ [r.2.2]) :
+    ∃ Q, Q < B ^ n ∧ B ^ n * (val B res + B ^ n * (r.2.1 + B * r.1)) = val B a + Q * val B m
+      ∧ res.length = n ∧ (∀ d ∈ res, d < B) ∧ r.1 < B ∧ r.2.1 < B := by
+  obtain ⟨hl1, hq1, z1, b1, b2, hv1⟩ := rdcLoop1_inv B u hB a m hda hdm hu n hnB
+  generalize rdcLoop1 B u a m n = st1 at *
+  obtain ⟨q, r0⟩ := st1
+  simp only at hl1 hq1 z1 b1 b2 hv1 hr hres
+  obtain ⟨hl2, hq2, z2, d1, d2, hv2⟩ :=
+    rdcLoop2_inv B n hB hnB a m q hda hdm hq1 hlm hl1 r0 z1 b1 b2 (n - 1) (by omega)
+  generalize rdcLoop2 B n a m q r0 (n - 1) = st2 at *
+  obtain ⟨out, r1⟩ := st2
+  simp only at hl2 hq2 z2 d1 d2 hv2 hr hres
+  have hal := getD_lt B (by omega) a hda (2 * n - 1)
+  have hrl := reg_le B r1 z2 d1 d2
+  have hcb := cube_bound B hB
+  obtain ⟨e, k1, k2, k3⟩ := combaAdd_spec B hB r1 _ (by omega) d1 d2 hal (by omega)
+  rw [← hr] at e k1 k2 k3
+  obtain ⟨k, rfl⟩ : ∃ k, n = k + 1 := ⟨n - 1, by omega⟩
+  have ek : k + 1 - 1 = k := by omega
+  have e2k : 2 * (k + 1) - 1 = k + (k + 1) := by omega
+  rw [ek] at hv2 hl2
+  rw [e2k] at e
+  refine ⟨val B q, ?_, ?_, ?_, ?_, k1, k2⟩
+  · have := val_lt B q hq1; rwa [hl1] at this
+  · -- all 2n columns
+    have htot : val B ((List.range (k + 1 + (k + 1))).map
+        fun j => a.getD j 0 + colSum q m j) = val B a + val B q * val B m := by
+      rw [val_map_add, val_getD_range B a _ (by omega), val_colSum B m q _ (by omega)]
+    rw [List.range_add, List.map_append, val_append, List.length_map, List.length_range,
+      List.map_map, ← hv1] at htot
+    have hG : (List.range (k + 1)).map ((fun j => a.getD j 0 + colSum q m j) ∘ fun x => k + 1 + x)
+        = (List.range (k + 1)).map fun j => a.getD (j + (k + 1)) 0 + colSum q m (j + (k + 1)) := by
+      apply List.map_congr_left
+      intro j _
+      show a.getD (k + 1 + j) 0 + colSum q m (k + 1 + j) = _
+      rw [Nat.add_comm (k + 1) j]
+    rw [hG, List.range_succ, List.map_append, val_append, List.length_map, List.length_range,
+      List.map_cons, List.map_nil] at htot
+    have hz : colSum q m (k + (k + 1)) = 0 := colSum_high q m _ (by omega)
+    rw [hz] at htot
+    rw [hres, val_append, hl2]
+    simp only [val, regVal, Nat.pow_succ] at hv2 e htot ⊢
+    exact core_arith _ _ _ _ _ _ _ _ _ _ _ hv2 e htot
+  · rw [hres]; simp [hl2]
+  · intro d hd
+    rw [hres] at hd
+    rcases List.mem_append.1 hd with hd | hd
+    · exact hq2 d hd
+    · simp at hd; omega
+
+theorem rdc_final (R p T Q V h : Nat) (hp : p < R) (hT : T < p * R) (hQ : Q < R)
+    (e : R * (V + R * h) = T + Q * p) :
+    h ≤ 1 ∧ V + h * R < 2 * p ∧ ((V + h * R) % p * R) % p = T % p := by
+  have hp0 : 0 < p := by
+    apply Nat.pos_of_ne_zero; intro h0; subst h0; simp at hT
+  have h1 : Q * p < R * p := Nat.mul_lt_mul_of_pos_right hQ hp0
+  have h2 : R * (V + R * h) < R * (2 * p) := by
+    have : R * (2 * p) = p * R + R * p := by grind
+    omega
+  have h3 : V + R * h < 2 * p := Nat.lt_of_mul_lt_mul_left h2
+  have h4 : h ≤ 1 := by
+    apply Classical.byContradiction
+    intro hh
+    have : R * 2 ≤ R * h := Nat.mul_le_mul_left R (by omega)
+    omega
+  rw [Nat.mul_comm h R]
+  refine ⟨h4, h3, ?_⟩
+  rw [Nat.mod_mul_mod, Nat.mul_comm, e, Nat.add_mul_mod_self_right]
+
+end FpAux
+
+-- `hub` (u < B) is not needed by the proof: q_i is reduced mod B whatever u is; kept for the C precondition
+set_option linter.unusedVariables false in
 /-- Montgomery reduction (fp_rdcn_low): for T < p·R given as 2n digits, the result is canonical and
     result · R ≡ T (mod p), including the final-subtraction and carry-out (r1 ≠ 0) branches -/
 theorem fpRdcn_spec (c : FpCtx) (hc : c.WF) (hu : (c.u * c.pv + 1) % c.B = 0) (hub : c.u < c.B)
     (t : List Nat) (hlen : t.length = 2 * c.n) (hdig : ∀ d ∈ t, d < c.B) (hT : val c.B t < c.pv * c.R) :
     c.El (fpRdcn c t) ∧ (val c.B (fpRdcn c t) * c.R) % c.pv = val c.B t % c.pv := by
-  sorry
+  have hB := one_lt_B c hc
+  have hpR := pv_lt_R c hc
+  have hu' : (c.u * c.p.getD 0 0 + 1) % c.B = 0 := by
+    have hpl := hc.hlen
+    have hn := hc.hn
+    have hpv : c.pv = val c.B c.p := rfl
+    rw [hpv] at hu
+    generalize c.p = m at *
+    cases m with
+    | nil => simp at hpl; omega
+    | cons m0 ms =>
+      simp only [val, List.getD_cons_zero] at hu ⊢
+      have : c.u * (m0 + c.B * val c.B ms) + 1 = c.u * m0 + 1 + c.B * (c.u * val c.B ms) := by grind
+      rwa [this, Nat.add_mul_mod_self_left] at hu
+  rw [fpRdcn_eq]
+  obtain ⟨Q, hQ, e, rl, rd, _, _⟩ := rdc_core c.B c.u c.n hB hc.hn hc.hnB t c.p hlen hc.hlen hdig
+    hc.hdig hu' _ _ rfl rfl
+  generalize combaAdd c.B (rdcLoop2 c.B c.n t c.p (rdcLoop1 c.B c.u t c.p c.n).1
+    (rdcLoop1 c.B c.u t c.p c.n).2 (c.n - 1)).2 (t.getD (2 * c.n - 1) 0) = r at *
+  generalize (rdcLoop2 c.B c.n t c.p (rdcLoop1 c.B c.u t c.p c.n).1
+    (rdcLoop1 c.B c.u t c.p c.n).2 (c.n - 1)).1 ++ [r.2.2] = res at *
+  rw [show c.B ^ c.n = c.R from rfl] at e hQ
+  rw [show val c.B c.p = c.pv from rfl] at e
+  obtain ⟨f1, f2, f3⟩ := rdc_final c.R c.pv _ Q _ _ hpR hT hQ e
+  have hr2 : r.1 = 0 := by
+    apply Classical.byContradiction
+    intro h
+    have : c.B * 1 ≤ c.B * r.1 := Nat.mul_le_mul_left _ (by omega)
+    omega
+  rw [hr2, Nat.mul_zero, Nat.add_zero] at f1 f2 f3
+  obtain ⟨g1, g2⟩ := condSub_spec c hc res r.2.1 rl rd f1 f2
+  refine ⟨g1, ?_⟩
+  rw [g2, f3]
 
 /-- Montgomery multiplication: ⟦mulm a b⟧·R ≡ ⟦a⟧·⟦b⟧ -/
 theorem fpMulm_spec (c : FpCtx) (hc : c.WF) (hu : (c.u * c.pv + 1) % c.B = 0) (hub : c.u < c.B)
     (a b : List Nat) (ha : c.El a) (hb : c.El b) :
     c.El (fpMulm c a b) ∧ (val c.B (fpMulm c a b) * c.R) % c.pv = (val c.B a * val c.B b) % c.pv := by
-  sorry
+  have hB := one_lt_B c hc
+  have hpR := pv_lt_R c hc
+  obtain ⟨al, ad, av⟩ := ha
+  obtain ⟨bl, bd, bv⟩ := hb
+  obtain ⟨m1, m2, m3⟩ := mulnLow_spec c.B hB a b c.n al bl hc.hnB ad bd
+  have hlt : val c.B a * val c.B b < c.pv * c.R :=
+    Nat.mul_lt_mul'' av (Nat.lt_trans bv hpR)
+  have := fpRdcn_spec c hc hu hub (mulnLow c.B a b c.n) m2 m3 (by rw [m1]; exact hlt)
+  rw [m1] at this
+  exact this
 
 theorem fpSqrm_spec (c : FpCtx) (hc : c.WF) (hu : (c.u * c.pv + 1) % c.B = 0) (hub : c.u < c.B)
     (a : List Nat) (ha : c.El a) :
     c.El (fpSqrm c a) ∧ (val c.B (fpSqrm c a) * c.R) % c.pv = (val c.B a * val c.B a) % c.pv := by
-  sorry
-
-/-- equality of canonical elements coincides with equality of residues (raw digit comparison is sound) -/
-theorem El_eq_iff (c : FpCtx) (hc : c.WF) (a b : List Nat) (ha : c.El a) (hb : c.El b) :
-    a = b ↔ val c.B a % c.pv = val c.B b % c.pv := by
-  sorry
-
-/-- class-B characterisations: a canonical inverse / square root is unique (up to sign) -/
-theorem inv_unique (p a x y : Nat) (hx : x < p) (hy : y < p) (h1 : a * x % p = 1) (h2 : a * y % p = 1) : x = y := by
-  sorry
+  have hB := one_lt_B c hc
+  have hpR := pv_lt_R c hc
+  obtain ⟨al, ad, av⟩ := ha
+  obtain ⟨m1, m2, m3⟩ := sqrnLow_spec c.B hB a c.n al hc.hnB ad
+  have hlt : val c.B a * val c.B a < c.pv * c.R :=
+    Nat.mul_lt_mul'' av (Nat.lt_trans av hpR)
+  have := fpRdcn_spec c hc hu hub (sqrnLow c.B a c.n) m2 m3 (by rw [m1]; exact hlt)
+  rw [m1] at this
+  exact this
 
 end Relic.Model
